@@ -130,10 +130,42 @@ def expected_names(poly, noff):
     return NONLIN + ["K"] + ["v%d" % i for i in range(poly)] + ["dv0_%d" % k for k in range(1, noff + 1)]
 
 
+def ordinary_session():
+    """What a user's process has usually done before the next prior is built: sample a prior, run the sampler, look at the
+    result (t0, orbit, table operations, a file round trip). Validation must not depend on it (process-wide state such as
+    astropy's enabled unit equivalencies included)."""
+    import os
+    import tempfile
+    import astropy.units as u
+    from thejoker import JokerPrior, RVData, TheJoker, JokerSamples
+    rng = np.random.default_rng(5)
+    t = 55000 + np.sort(rng.uniform(0, 100, 8))
+    data = RVData(t, rng.normal(0, 5, 8) * u.km / u.s, np.full(8, 0.5) * u.km / u.s)
+    prior = JokerPrior.default(P_min=2 * u.day, P_max=200 * u.day, sigma_K0=30 * u.km / u.s, sigma_v=100 * u.km / u.s)
+    lib = prior.sample(size=300, rng=np.random.default_rng(1), return_logprobs=True)
+    post = TheJoker(prior, rng=np.random.default_rng(2)).rejection_sample(data, lib, return_logprobs=True)
+    post.get_t0()
+    post.get_time_with_phase(0.5 * u.rad)
+    post.get_orbit(0).radial_velocity(data.t)
+    post.wrap_K()
+    post.pack()
+    post[0:1].copy()
+    post.median_period()
+    d = tempfile.mkdtemp()
+    post.write(os.path.join(d, "post.hdf5"), overwrite=True)
+    JokerSamples.read(os.path.join(d, "post.hdf5"))
+    data.phase(P=3 * u.day)
+
+
 def run(ctx):
     import astropy.units as u
     from astropy.table import Table
     from thejoker import JokerPrior, RVData, TheJoker
+    try:
+        ordinary_session()
+        ctx.count("ordinary_session_before_validation")
+    except Exception as e:
+        ctx.exception(e, "ordinary session before the validation grid", dict())
 
     def attempt(spec, valid, what, param):
         desc = dict(spec={k: (sorted(v) if isinstance(v, set) else v) for k, v in spec.items()}, expected_valid=valid,
